@@ -313,7 +313,14 @@ mod builtins {
 
     fn cmp_helper(a: &Value, b: &Value, case_sensitive: bool, reverse: bool) -> Ordering {
         let ordering = if !case_sensitive {
-            if let (Some(a), Some(b)) = (a.as_str(), b.as_str()) {
+            // bytes have a string view too but sort with the bytes: folding
+            // them like strings does not give a total order
+            let strings = if a.kind() == ValueKind::String && b.kind() == ValueKind::String {
+                a.as_str().zip(b.as_str())
+            } else {
+                None
+            };
+            if let Some((a, b)) = strings {
                 #[cfg(feature = "unicode")]
                 {
                     unicase::UniCase::new(a).cmp(&unicase::UniCase::new(b))
